@@ -110,8 +110,10 @@ def monitor(sc, ir):
             if not (rq == 1 or ri == m):
                 fails.append("Quantity %d != 1 although Interval %d != minimum %d" % (rq, ri, m))
             if ri > 0 and rq > 0:
-                if not ((i - q) * rq < ri * q):
-                    fails.append("faster than the original by a whole nanosecond of interval or more")
+                # "faster by less than one nanosecond of its interval": with one more nanosecond of Interval the returned rate is
+                # strictly slower than the original, Q'/(I'+1) < Q/I (for Q' = 1 this is I/Q - 1 < I')
+                if not (rq * i < q * (ri + 1)):
+                    fails.append("faster than the original by a whole nanosecond of its Interval or more")
                 if not (q * ri < (rq + 1) * i):
                     fails.append("slower than the original by a whole element per interval or more")
     key = "rate:%s:%d:%d:%d" % (["Recalculate", "Optimize", "Flatten"][which], i, q, m)
